@@ -26,6 +26,35 @@ What the code does, and the model repeats literally:
   downcast `clear_checkpoints(pipeline_id)`;
 * the parallel engine is `exec_par` wrapped: `Ok` ⇒ clear, `Err` ⇒ save a `"Failed"` marker record.
 
+What the two engines do BEFORE the first node, and the model repeats as outcomes of their own (`Outcome.setupFailed`):
+
+* `CheckpointManager::new(config)?` — `create_dir_all(directory)`; when the path cannot be made a directory (it is a
+  regular file, a parent is read-only, …) `run_collect` returns that `Err` although the plain engines would have
+  returned the result (`Env.dirCreatable = false` ⇒ `.setupFailed .createDir`);
+* `find_latest_checkpoint(..)?` (only with `auto_recover`) — `read_dir(directory)` fails (e.g. mode 0300) ⇒ `Err`
+  (`Env.dirListable = false` ⇒ `.setupFailed .readDir`).
+
+Both are exits that exist ONLY in the checkpointing engines: WITH AN UNUSABLE CHECKPOINT DIRECTORY THE CHECKPOINTING RUN
+RETURNS `Err` WHERE THE PLAIN RUN RETURNS `Ok`. They are OUTSIDE the transparency claim: transparency is a theorem
+under the hypothesis "the checkpoint directory is usable" (`DirUsable`, Proofs/CheckpointRun.lean); without it the
+negation is proved (Props/C11.lean: `unusable_directory_not_transparent`, `unlistable_directory_not_transparent`).
+The first exit is reproduced on the real code by the harness (jobs `dir=file`: the path is a regular file); the
+second is modelled and proved only — the sandbox runs as uid 0, for which a mode-0300 directory is still listable. The same `read_dir` is also called by `cleanup_old_checkpoints` (inside
+`save_checkpoint`, whose `Err` is only logged) and by `clear_checkpoints` (`.ok()`): with an unlistable directory the
+file is written but retention / the final clear do nothing — modelled (`saveD`, `clearRun`).
+
+Entries of the directory that are themselves DIRECTORIES (`Env.isDir`, a predicate on names; the code never creates
+or removes a directory inside the checkpoint directory, so it is constant during a run): the three scans filter by
+NAME only, so an own-named sub-directory `checkpoint_<pid>_<n>.bin/` is counted by retention, can be "the latest", and
+is a candidate of clear; but `remove_file` fails on it (`.ok()` ⇒ it stays, also after a successful run),
+`File::create` fails on it (`save_checkpoint` = `Err`, logged) and `read_to_end` fails on it (`load_checkpoint` =
+`Err`, logged). `cleanupD` / `clearD` / `saveD` / `readD` below are the store functions of `Model/Checkpoint.lean`
+with exactly this difference; with `isDir = fun _ => false` they are those functions (`Proofs/CheckpointRun.lean`).
+
+NOT modelled: I/O errors on single regular files (`File::create` / `write_all` / `sync_all` / `remove_file` failing
+for another reason than "is a directory"), a directory that changes while the run is in progress, `read_dir` entries
+that fail individually (`filter_map(Result::ok)`), non-UTF-8 names (skipped by `to_str()` in the code).
+
 Engine conventions inherited from `Model/Engine.lean`: `Err.emptyBuf` stands for a panic of the engine
 (`buf.take().unwrap()` on `None`), `Err.nonTermination` for a fan-in loop that never ends; neither RETURNS, so
 neither clears nor saves a marker.
@@ -37,7 +66,8 @@ namespace IB.CheckpointRun
 open IB IB.Checkpoint
 
 /-- the part of `CheckpointConfig` the engines read (`enabled` is true on this path: `run_collect` only enters the
-    checkpointing engines when `config.enabled`; `directory` is the model file system itself) -/
+    checkpointing engines when `config.enabled`; `directory` is the model file system itself, its state as a path —
+    creatable, listable — is in `Env`) -/
 structure Config where
   policy : Policy
   autoRecover : Bool
@@ -53,6 +83,12 @@ structure Env where
   clock : Nat → Nat
   /-- `((idx as f64 / total_nodes as f64) * 100.0) as u8` -/
   progress : Nat → Nat → UInt8
+  /-- does `create_dir_all(config.directory)` succeed (the path is, or can be made, a directory)? -/
+  dirCreatable : Bool := true
+  /-- does `read_dir(config.directory)` succeed? -/
+  dirListable : Bool := true
+  /-- the names in the checkpoint directory that are sub-directories -/
+  isDir : Name → Bool := fun _ => false
 
 /-- ASCII bytes of a literal -/
 def ascii (s : String) : Bytes := s.toList.map (fun c => UInt8.ofNat c.toNat)
@@ -86,6 +122,36 @@ def nodeType : Node P → Bytes
   | .materialized _ => ascii "Materialized"
   | .combineGlobal .. => ascii "CombineGlobal"
 
+/-! ## the store functions in the presence of sub-directories and of a directory that cannot be listed -/
+
+/-- an own-named REGULAR file: what `remove_file` can actually remove among the candidates of the scans -/
+def ownFile (isDir : Name → Bool) (pid : Bytes) (name : Name) : Bool := isOwn pid name && !isDir name
+
+/-- `cleanup_old_checkpoints`: the doomed names are chosen among ALL own-named entries (the scans look at names only);
+    `remove_file(..).ok()` then removes the regular files among them and fails silently on a sub-directory -/
+def cleanupD (isDir : Name → Bool) (max : Option Nat) (pid : Bytes) (fs : FS) : FS :=
+  match max with
+  | none => fs
+  | some m =>
+    let d := doomed (isOwn pid) (sortKey (pfx pid)) m (names fs)
+    fs.filter (fun f => !(d.contains f.1 && !isDir f.1))
+
+/-- `clear_checkpoints` (after a successful `read_dir`): every own-named regular file goes, sub-directories stay -/
+def clearD (isDir : Name → Bool) (pid : Bytes) (fs : FS) : FS := clearWith (ownFile isDir pid) fs
+
+/-- `save_checkpoint`: `none` = `File::create` failed (the name is a sub-directory) — nothing else happened;
+    otherwise the file is written and, if the directory can be listed, retention runs (if not,
+    `cleanup_old_checkpoints` returns `Err` AFTER the write — the file stays, nothing is removed) -/
+def saveD (isDir : Name → Bool) (listable : Bool) (max : Option Nat) (fs : FS) (s : State) : Option FS :=
+  if isDir (fileName s) then none
+  else
+    let w := write fs (fileName s) (encode s)
+    some (if listable then cleanupD isDir max s.pipelineId w else w)
+
+/-- `File::open` + `read_to_end`: fails on a sub-directory (EISDIR) -/
+def readD (isDir : Name → Bool) (fs : FS) (name : Name) : Option Bytes :=
+  if isDir name then none else read fs name
+
 /-! ## recovery -/
 
 /-- what the recovery block saw (it is only logged) -/
@@ -103,19 +169,28 @@ def kills : DecErr → Bool
   | .allocFail => true          -- the allocator aborts the process
   | _ => false
 
+/-- how the recovery block can fail to fall through to the node loop -/
+inductive RecFail where
+  /-- the process died inside `load_checkpoint` -/
+  | died (e : DecErr)
+  /-- `find_latest_checkpoint(..)?`: `read_dir` failed, `run_collect` returns `Err` -/
+  | readDir
+deriving DecidableEq, Repr
+
 /-- the recovery block: `if auto_recover && let Some(path) = find_latest_checkpoint(pid)? { match load_checkpoint(path) … }`.
-    `.error e` = the process died inside `load_checkpoint` with `e`. -/
-def recover (env : Env) (cfg : Config) (pid : Bytes) (fs : FS) : Except DecErr RecLog :=
+    (`directory.exists()` holds here: `CheckpointManager::new` has just created it.) -/
+def recover (env : Env) (cfg : Config) (pid : Bytes) (fs : FS) : Except RecFail RecLog :=
   if !cfg.autoRecover then .ok .off
+  else if !env.dirListable then .error .readDir
   else match latest true pid fs with
     | none => .ok .nothing
     | some name =>
-      match read fs name with
+      match readD env.isDir fs name with
       | none => .ok .unreadable
       | some bytes =>
         match load env.H env.dec bytes with
         | .ok s => .ok (.loaded s)
-        | .error e => if kills e then .error e else .ok (.rejected e)
+        | .error e => if kills e then .error (.died e) else .ok (.rejected e)
 
 /-! ## the manager's mutable state during a run -/
 
@@ -154,10 +229,13 @@ def mkState (env : Env) (pid : Bytes) (idx ts pc : Nat) (mode : Bytes) (total : 
 def seqState (env : Env) (pid : Bytes) (idx total ts : Nat) (nt : Bytes) : State :=
   mkState env pid idx ts 1 (ascii "sequential") total nt (env.progress idx total)
 
-/-- `manager.save_checkpoint(&state)` as the engines use it (result ignored): write + retention, then
-    `last_checkpoint_time = Some(SystemTime::now())` -/
+/-- `manager.save_checkpoint(&state)` as the engines use it (result only logged): create + write, then
+    `last_checkpoint_time = Some(SystemTime::now())`, then retention. When `File::create` fails the function returns
+    before the clock is read. -/
 def doSave (env : Env) (cfg : Config) (st : St) (s : State) : St :=
-  { fs := save cfg.max st.fs s, last := some (env.clock st.tick), tick := st.tick + 1 }
+  match saveD env.isDir env.dirListable cfg.max st.fs s with
+  | none => st
+  | some fs' => { fs := fs', last := some (env.clock st.tick), tick := st.tick + 1 }
 
 /-- the block after each node of the sequential engine: `if manager.should_checkpoint(..) { … save_checkpoint … }` -/
 def afterNode (env : Env) (cfg : Config) (pid : Bytes) (total idx : Nat) (node : Node P) (st : St) : St :=
@@ -192,12 +270,22 @@ def runNodes {ε : Type} (step : Option P → Node P → Except ε P) (env : Env
     | .error e => (.error e, st)                     -- `?`: return at once, nothing cleared
     | .ok b => runNodes step env cfg pid total (idx + 1) rest (some b) (afterNode env cfg pid total idx n st)
 
+/-- the two `?` exits in front of the node loop -/
+inductive SetupErr where
+  /-- `CheckpointManager::new`: "Failed to create checkpoint directory" -/
+  | createDir
+  /-- `find_latest_checkpoint`: "Failed to read checkpoint directory" -/
+  | readDir
+deriving DecidableEq, Repr
+
 /-- how a run ended -/
 inductive Outcome (ρ : Type) where
   /-- `run_collect` returned (engine conventions: `.error .emptyBuf` = engine panic, `.nonTermination` = hang) -/
   | finished (r : ρ)
   /-- the process panicked / aborted inside `load_checkpoint` during recovery -/
   | died (e : DecErr)
+  /-- `run_collect` returned an `Err` of the checkpointing set-up, before any node ran -/
+  | setupFailed (e : SetupErr)
 
 structure Run (ρ : Type) where
   outcome : Outcome ρ
@@ -208,18 +296,24 @@ structure Run (ρ : Type) where
 
 def initSt (fs : FS) : St := { fs := fs, last := none, tick := 0 }
 
+/-- `manager.clear_checkpoints(&pipeline_id).ok()`: nothing happens when `read_dir` fails -/
+def clearRun (env : Env) (pid : Bytes) (fs : FS) : FS := if env.dirListable then clearD env.isDir pid fs else fs
+
 /-- `exec_seq_with_checkpointing(chain, config)` -/
 def execSeqCkpt (env : Env) (cfg : Config) (fs : FS) (chain : List (Node P)) : Run (M P) :=
   let total := chain.length
   let pid := seqPid env total
+  if !env.dirCreatable then { outcome := .setupFailed .createDir, fs := fs, log := none }   -- `CheckpointManager::new(config)?`
+  else
   match recover env cfg pid fs with
-  | .error e => { outcome := .died e, fs := fs, log := none }
+  | .error (.died e) => { outcome := .died e, fs := fs, log := none }
+  | .error .readDir => { outcome := .setupFailed .readDir, fs := fs, log := none }
   | .ok lg =>
     let r := runNodes stepSeqCk env cfg pid total 0 chain none (initSt fs)
     match r.1 with
     | .error e => { outcome := .finished (.error e), fs := r.2.fs, log := some lg }
     | .ok none => { outcome := .finished (.error .emptyBuf), fs := r.2.fs, log := some lg }   -- `buf.unwrap()` panics
-    | .ok (some b) => { outcome := .finished (.ok b), fs := clear pid r.2.fs, log := some lg }
+    | .ok (some b) => { outcome := .finished (.ok b), fs := clearRun env pid r.2.fs, log := some lg }
 
 /-- the directory a run leaves behind when it is KILLED right after the `k`-th node (and its save, if one was due):
     nothing is cleared. `k = 0`: killed before the first node. -/
@@ -243,16 +337,21 @@ def execParCkpt (concat : List P → P) (env : Env) (cfg : Config) (fs : FS) (ch
     Run (M P) :=
   let total := chain.length
   let pid := parPid env total n
+  if !env.dirCreatable then { outcome := .setupFailed .createDir, fs := fs, log := none }
+  else
   match recover env cfg pid fs with
-  | .error e => { outcome := .died e, fs := fs, log := none }
+  | .error (.died e) => { outcome := .died e, fs := fs, log := none }
+  | .error .readDir => { outcome := .setupFailed .readDir, fs := fs, log := none }
   | .ok lg =>
     let r := execPar concat chain n
     match r with
-    | .ok _ => { outcome := .finished r, fs := clear pid fs, log := some lg }
+    | .ok _ => { outcome := .finished r, fs := clearRun env pid fs, log := some lg }
     | .error e =>
       if returnsErr e then
         let ts := stampOf (env.clock 0)
-        { outcome := .finished r, fs := save cfg.max fs (failedState env pid total n ts), log := some lg }
+        { outcome := .finished r,
+          fs := (saveD env.isDir env.dirListable cfg.max fs (failedState env pid total n ts)).getD fs,   -- `.ok()`
+          log := some lg }
       else { outcome := .finished r, fs := fs, log := some lg }
 
 /-! ## `Runner::run_collect`: which engine runs -/
@@ -304,14 +403,17 @@ def stepSeqCk (cur : Option P) : Node P → Except RunErr P
 def execSeqCkpt (env : Env) (cfg : Config) (fs : FS) (chain : List (Node P)) : Run (Except RunErr P) :=
   let total := chain.length
   let pid := seqPid env total
+  if !env.dirCreatable then { outcome := .setupFailed .createDir, fs := fs, log := none }
+  else
   match recover env cfg pid fs with
-  | .error e => { outcome := .died e, fs := fs, log := none }
+  | .error (.died e) => { outcome := .died e, fs := fs, log := none }
+  | .error .readDir => { outcome := .setupFailed .readDir, fs := fs, log := none }
   | .ok lg =>
     let r := runNodes stepSeqCk env cfg pid total 0 chain none (initSt fs)
     match r.1 with
     | .error e => { outcome := .finished (.error e), fs := r.2.fs, log := some lg }
     | .ok none => { outcome := .finished (.error (.engine .emptyBuf)), fs := r.2.fs, log := some lg }
-    | .ok (some b) => { outcome := .finished (.ok b), fs := clear pid r.2.fs, log := some lg }
+    | .ok (some b) => { outcome := .finished (.ok b), fs := clearRun env pid r.2.fs, log := some lg }
 
 end Legacy
 
